@@ -324,12 +324,12 @@ def run(chk):
     from symex import loader
 
     chk.functions = loader.describe_exprs(['tof.Q_elements_from_wavelength', 'tof.Q_vec_from_Q_elements', 'tof.hkl_vec_from_Q_vec', 'tof.ub_matrix_from_u_and_b', 'tof.hkl_elements_from_hkl_vec', 'tof.Q_from_wavelength'], {**globals(), **locals()})
-    run_jobs(chk, job_q, ['definition', 'units', 'rescale', 'rotation', 'definition:int64', 'definition:float32', 'units:int64'])
+    run_jobs(chk, job_q, ['definition', 'units', 'rescale', 'rotation', 'definition:int64', 'definition:float32', 'units:int64'] + ([f'{w}:{d}' for w in ('units', 'rescale', 'rotation') for d in ('float32', 'int64') if (w, d) != ('units', 'int64')] if chk.tier == 'thorough' else []))
     run_jobs(chk, job_hkl, ['scalar', 'array', 'grains'])
     run_jobs(chk, job_inv_model, [0])
     run_jobs(chk, job_hkl_elements, [0])
     from . import shimval
-    shimval.validate(chk, 'qvec', 40 if chk.tier == 'quick' else 240)
+    shimval.validate(chk, 'qvec', 40 if chk.tier == 'quick' else 1000)
     chk.bounds = {'shapes': 'scalar operands', 'matrices': 'U, B, R arbitrary real 3x3 (non-singular R.UB); W = inv(R.UB) as 9 fresh variables with M.W = I'}
     chk.stubs = ['scipp -> symsc', 'numpy pi -> symbolic pi', 'spatial.inv -> fresh matrix W with contract M.W = I (lemma chain)']
     chk.axioms = ['sin^2(theta) = (1-c)/2 (half-angle, from C03 cos(two_theta)=c)', 'rotation: abstraction lemma + rotation about z']
